@@ -67,8 +67,8 @@ def call_fn(case, seed, P=None):
     fn = case["fn"]
     if P is None:
         P = params_for(case)[0]
-    # the seed as a Python int or as a numpy integer scalar (same value)
-    if seed < 2**32:
+    # the seed as a Python int or as a numpy integer scalar (same value); sequences go through as they are
+    if not isinstance(seed, (list, tuple, np.ndarray)) and seed < 2**32:
         seed = gen.typed_scalar(seed, ["python", "python", "int64", "uint32", "uint64"][(case["shape"][0] + case["shape"][1]) % 5])
     if fn == "shot_poisson":
         return detector.shot_noise(np.full(shape, case["level"]), method="poisson", seed=seed)
@@ -125,6 +125,27 @@ def seeded(case, ctx):
             for sj in family[i + 1:]:
                 if np.array_equal(frames[si], frames[sj]):
                     raise Violation("C18.seeded.seed_ignored", f"{case['fn']}: seeds {si} and {sj} gave the same frame")
+    if a.size >= 16:
+        # sequence seeds ("None, int or array_like": (run id, frame number) pairs with 64-bit run ids): entries that
+        # differ only above bit 31, and the same pair as list / tuple / uint64 array
+        seqs = [[s0, 5], [s0 + 2**32, 5], [s0, 5 + 2**33], (s0 + 2**40, 5), np.array([s0 + 2**48, 5], dtype=np.uint64), [5, s0]]
+        seen, uniq = set(), []
+        for q in seqs:
+            key = tuple(int(v) for v in q)
+            if key not in seen:
+                seen.add(key)
+                uniq.append(q)
+        seqs = uniq
+        with lentil_call("C18.seeded", case["fn"] + " (sequence seeds)"):
+            fr = [np.asarray(call_fn(case, q, P)) for q in seqs]
+            again = np.asarray(call_fn(case, tuple(seqs[1]), P))
+        if not np.array_equal(again, fr[1]):
+            raise Violation("C18.seeded.reproducible", f"{case['fn']}: the sequence seed {seqs[1]} as a list and as a tuple gave different frames")
+        for i in range(len(seqs)):
+            for j in range(i + 1, len(seqs)):
+                if np.array_equal(fr[i], fr[j]):
+                    raise Violation("C18.seeded.seed_ignored", f"{case['fn']}: sequence seeds {list(map(int, seqs[i]))} and "
+                                                               f"{list(map(int, seqs[j]))} gave the same frame")
     if not np.all(np.isfinite(a)):
         raise Violation("C18.seeded.finite", f"{case['fn']} returned non-finite values")
     changed = [k for k, v in raw.items() if float(P[k]) != float(v)]
